@@ -545,6 +545,25 @@ class Body:
                     mutref[lhs["local"]] = rv["place"]["local"]
             elif not any(p["k"] == "deref" for p in lhs["proj"]):
                 defs.setdefault(lhs["local"], []).append(("partial", bi, si, lhs["proj"], rv))
+        # re-borrows and moves of a `&mut L` reference still denote L
+        changed = True
+        while changed:
+            changed = False
+            for bi, si, st in self.stmts():
+                if st["k"] != "assign" or st["lhs"]["proj"]:
+                    continue
+                rv = st["rv"]
+                tgt = st["lhs"]["local"]
+                if tgt in mutref:
+                    continue
+                src = None
+                if rv["k"] == "ref" and rv["mut"] and len(rv["place"]["proj"]) == 1 and rv["place"]["proj"][0]["k"] == "deref":
+                    src = rv["place"]["local"]
+                elif rv["k"] == "use" and rv["op"]["k"] in ("move", "copy") and not rv["op"]["place"]["proj"]:
+                    src = rv["op"]["place"]["local"]
+                if src is not None and src in mutref and self.locals[tgt]["tyj"].get("k") == "ref" and self.locals[tgt]["tyj"].get("mut"):
+                    mutref[tgt] = mutref[src]
+                    changed = True
         for bi in sorted(live):
             t = self.blocks[bi]["term"]
             if t["k"] == "call":
@@ -610,7 +629,12 @@ class Terms:
             return False
         # a collection / crate-local struct that is mutated in place through &mut calls
         if tj["path"] in self.CONTAINERS or tj.get("krate") == self.b.crate.name:
-            return any(d[0] == "mutby" for d in self.b.defs().get(l, []))
+            for d in self.b.defs().get(l, []):
+                if d[0] == "mutby":
+                    t = self.b.blocks[d[1]]["term"]
+                    if "fn" in t["func"] and callee_base(Callee(t["func"]["fn"]).key) in ADVANCE_KEYS:
+                        continue
+                    return True
         return False
 
     def container_defs(self, l):
@@ -884,6 +908,11 @@ IDENTITY_KEYS = {
 }
 
 
+# `&mut x` passed to these does not redefine x for provenance purposes (an iterator stays "the
+# iterator over its source" when advanced)
+ADVANCE_KEYS = {"core::iter::Iterator::next", "core::iter::DoubleEndedIterator::next_back"}
+
+
 def callee_base(key):
     """key without the @adt qualifier"""
     return key.split("@")[0] if isinstance(key, str) else key
@@ -946,7 +975,7 @@ def _norm(t, identity, memo):
         # a temporary that is only re-borrowed through an identity-like call (deref_mut, by_ref …)
         # is not redefined by it
         keep = [x for x in ms if not (x[0] == "mutby" and isinstance(x[1], str) and
-                                     (x[1] in identity or callee_base(x[1]) in identity))]
+                                     (x[1] in identity or callee_base(x[1]) in identity or callee_base(x[1]) in ADVANCE_KEYS))]
         return mk_phi(keep or ms)
     if k == "repeat":
         return ("repeat", n(t[1]), t[2])
